@@ -365,8 +365,17 @@ func checkC20Observes(w *World, r *Report, fn *ssa.Function, next *ssa.Call, emi
 	ru.Check("calls of the logger closure", w.Pos(fn.Pos()), "no recover/defer, only read-only accessors of Context and ResponseWriter", bad == "", orDefault(bad, "read-only"))
 	eachInstr(fn, func(in ssa.Instruction) {
 		c, ok := in.(*ssa.Call)
-		if ok && c.Common().IsInvoke() && c.Common().Method.Name() == "Status" {
-			ru.Check("read of the status", w.Pos(c.Pos()), "the recorded status is read after the handler returned", instrDominates(next, c), "")
+		if ok && c.Common().IsInvoke() && (c.Common().Method.Name() == "Status" || c.Common().Method.Name() == "Header") {
+			// the writer itself has to be fetched after the handler too: a handler may install another writer (SetWriter)
+			why := ""
+			if !instrDominates(next, c) {
+				why = "read before the handler ran"
+			} else if wr, isCall := c.Common().Value.(*ssa.Call); !isCall || !wr.Common().IsInvoke() || wr.Common().Method.Name() != "Writer" {
+				why = "the receiver is not a fresh c.Writer()"
+			} else if !instrDominates(next, wr) {
+				why = "the writer was fetched at " + w.Pos(wr.Pos()) + ", before the handler ran (a handler may replace the writer)"
+			}
+			ru.Check("read of the "+strings.ToLower(c.Common().Method.Name())+" of the response", w.Pos(c.Pos()), "status and headers are read, after the handler returned, from the writer the context holds then", why == "", orDefault(why, "c.Writer() evaluated after next"))
 		}
 	})
 	want := map[string]string{"status": "Status", "method": "Method", "host": "Host", "path": "Path"}
